@@ -35,6 +35,7 @@ func (x *Exec) initState() *State {
 // verifyFunction generates all obligations of one function against its own contract (mode "own")
 // or against the contract of an interface method it implements (mode "refines").
 func (x *Exec) verifyFunction(fn *ssa.Function, con *Contract, ifaceCon *Contract, recvType types.Type) (rep *FuncReport) {
+	resetFresh()
 	key := x.fnKey[fn]
 	short := key[strings.Index(key, "::")+2:]
 	pkgShort := key[:strings.Index(key, "::")]
@@ -266,6 +267,7 @@ func (x *Exec) refinementTargets(fn *ssa.Function) []*Contract {
 // lemma obligations: forall params. requires ==> ensures, proved directly by the solver
 // (with `induct n`: base n=0 is part of the goal; the hypothesis for n-1 is assumed).
 func (x *Exec) verifyLemma(l *LemmaDecl) *FuncReport {
+	resetFresh()
 	x.curFn = "lemma." + l.Name
 	x.curReveal = l.Reveal
 	rep := &FuncReport{Key: x.curFn}
